@@ -841,7 +841,7 @@ def main():
         hit = caught.get(cn[0], False)
         run.canaries.append(dict(name=cn[0], detected=hit))
         if not hit:
-            run.inconc('canary not detected: %s' % cn[0])
+            run.canary_miss(cn[0], caught)
     numenv.enable()
     run.stubs = sorted(set(numenv.STUBS))
     numenv.disable()
